@@ -2,6 +2,7 @@ package checks
 
 import (
 	"fmt"
+	"sort"
 	"strings"
 
 	"verif/core"
@@ -239,7 +240,9 @@ func init() {
 							c.Input(map[string]any{"files": describeFiles(files), "page": page, "data": model.DescribeData(data)})
 							traceReset()
 							got, _ := renderPage(c, tpl, page, model.NativeData(data))
-							ev := traceTake()
+							// the statement fixes no order among the arguments of one use: compare the logs as multisets
+							ev := sortEvents(traceTake())
+							exp.Events = sortEvents(exp.Events)
 							if why := compare(exp, got, true, ev); why != "" {
 								c.Violation("component-render:"+scopeFailureClass(exp, got), why, map[string]any{"files": describeFiles(files), "page": page, "data": model.DescribeData(data), "expected": expectText(exp)})
 							}
@@ -318,5 +321,16 @@ func flipData(d map[string]model.Value) map[string]model.Value {
 	out["ds"] = model.Str("flipped")
 	out["da"] = model.Arr(model.Int(9))
 	out["p0"] = model.Str("")
+	return out
+}
+
+func sortEvents(ev []model.Event) []model.Event {
+	out := append([]model.Event(nil), ev...)
+	sort.SliceStable(out, func(a, b int) bool {
+		if out[a].ID != out[b].ID {
+			return out[a].ID < out[b].ID
+		}
+		return out[a].Val < out[b].Val
+	})
 	return out
 }
